@@ -274,6 +274,9 @@ class _CloseInterp(AbsInt):
         self.note_vars = {t.id for n in ast.walk(fn) if isinstance(n, (ast.Assign, ast.AugAssign))
                           for t in (n.targets if isinstance(n, ast.Assign) else [n.target])
                           if isinstance(t, ast.Name) and "PITCH" in src(n.value)}
+        # ... or a local list of parts that receives such a piece (`parts.append(f"{PITCH}...")`, joined when the token is emitted)
+        self.note_vars |= {call_method(c)[0].id for c in ast.walk(fn) if isinstance(c, ast.Call) and call_method(c)[1] == "append"
+                           and isinstance(call_method(c)[0], ast.Name) and c.args and "PITCH" in src(c.args[0]) and call_method(c)[0].id != result}
 
     def join(self, a, b):
         return a | b
@@ -327,7 +330,7 @@ class _CloseInterp(AbsInt):
                     ws = list(res)
                 elif isinstance(recv, ast.Name) and recv.id == self.res and name == "append" and c.args:
                     txt = src(c.args[0])
-                    if "PITCH" in txt or (isinstance(c.args[0], ast.Name) and c.args[0].id in self.note_vars):
+                    if "PITCH" in txt or any(isinstance(x, ast.Name) and x.id in self.note_vars for x in ast.walk(c.args[0])):
                         ws = [self._set(w, note=True)]
             out.update(ws)
         return frozenset(out) or None
